@@ -5,14 +5,34 @@ ID = "C03"
 N_QUICK = 6000
 N_THOROUGH = 150000
 LEAN_MODULES = ["JSV.Props.C03"]
-PREFILTER = vjudge.prefilter
+
+
+def PREFILTER(o, m):
+    # operations judged by the python oracle alone (op validate-go: the driver does not know it, the model is not evaluated) are
+    # guarded by construction: every reference cycle of registry_alias passes through `properties`
+    if (o.get("meta") or {}).get("oracle"):
+        return True
+    return vjudge.prefilter(o, m)
+
+
 RULE = ("universes of 1..4 documents (root + Loader documents) with embedded resources ($id relative/absolute/urn), anchors, refs "
         "in every syntactic form (fragment, pointer, anchor, relative path with ./ and ../, absolute path, network path, absolute "
         "URI, canonical-id vs retrieval-URI alias), BaseURI empty/absolute/urn, Loader present/absent, Loader failures on subsets; "
         "targets carry unique const marks; expected verdicts by construction (urllib RFC 3986) where predictable; also net/url vs "
-        "model on (base, ref) pairs. Non-trivial: >= 1 reference to a marked target; distinct = distinct operation text")
+        "model on (base, ref) pairs; definitions whose NAME contains a raw '/' beside a sibling whose name is a prefix of it (`a` and `a/not`): "
+        "the raw pointer #/$defs/a/not selects a's subschema (or nothing), #/$defs/a~1not the member; REGISTRY universes (~3 %, op "
+        "validate-go): a Loader that serves ONE parsed *Schema object under two URLs (/v1/ and /latest/), including the object being "
+        "resolved, which refers to itself through the alias URL and to siblings by relative $ref — such a Loader is outside the Lean model "
+        "(resolve_sound assumes LoaderFresh; one info table), so these operations are NOT sent to the model: they are judged by the "
+        "python oracle of the statement alone (each reference written in the document designates what RFC 3986 resolution against the URL "
+        "the caller knows the document by — BaseURI / the referring $ref — gives; no Loader URI twice; every designated document "
+        "requested). Non-trivial: >= 1 reference to a marked target; distinct = distinct operation text")
 TRUSTED = ["python urllib.parse.urljoin as an independent RFC 3986 resolver for the expected verdicts"]
-ASSUMPTIONS = ["no two equal anchors / $ids in one resource", "URIs without userinfo, hosts [a-z0-9.-]+"]
+ASSUMPTIONS = ["no two equal anchors / $ids in one resource", "URIs without userinfo, hosts [a-z0-9.-]+",
+               "model comparison only for Loaders that return fresh objects per URI (LoaderFresh); for a Loader that hands out one object "
+               "under two URLs only the paths whose designation does not depend on the URL the shared object was entered by are observed "
+               "(the document's own references under the URL the caller knows it by; absolute / fragment-only references through the alias), "
+               "by the python oracle"]
 
 URI_BASES = ["", "http://x.test/d/root.json", "http://x.test/d/", "http://x.test", "https://h.test/a/b/c.json?q=1", "urn:example:root",
              "http://x.test/d/root.json#frag", "file:///a/b", "http://x.test/a/../b/./c.json", "file:/a/b", "http://[::1]:80/d/r.json"]
@@ -33,8 +53,17 @@ def gen(rng, tier, n):
         for r in URI_REFS:
             ops.append({"op": "uri", "args": {"base": b, "ref": r}, "meta": {"kind": "uri"}})
     while len(ops) < n:
-        if rng.random() < 0.03:
+        r = rng.random()
+        if r < 0.03:
             ops.append({"op": "validate", "args": gen_refs.mixed_cycle(rng), "meta": {"kind": "universe", "nrefs": 2, "mixed": True}})
+            continue
+        if r < 0.06:
+            args, meta = gen_refs.registry_alias(rng, "2020" if rng.random() < 0.75 else "7")
+            ops.append({"op": "validate-go", "args": args, "meta": meta})
+            continue
+        if r < 0.11:
+            args, meta = gen_refs.slash_defs(rng, "2020" if rng.random() < 0.75 else "7")
+            ops.append({"op": "validate", "args": args, "meta": meta})
             continue
         draft = "2020" if rng.random() < 0.75 else "7"
         root, docs, base, loader, insts, expect, meta = gen_refs.gen_universe(rng, draft, 3 if tier == "quick" else 4)
@@ -50,6 +79,32 @@ def nontrivial(o):
     return me.get("kind") == "uri" or me.get("nrefs", 0) >= 1
 
 
+def judge_oracle(o, go):
+    """Operations outside the model (op validate-go): the real package against the generator's expectations (meta.expect: which marked
+    target each reference designates; meta.needs: the documents that must have been requested), never against the model."""
+    me = o["meta"]
+    if go is None:
+        return "violation:harness", "no answer from harness"
+    if go.get("outcome") == "harness-error":
+        return "violation:harness", str(go.get("detail"))
+    if go.get("outcome") in ("panic", "timeout", "crash"):
+        return "violation", "the real package %s: %s" % (go.get("outcome"), str(go.get("detail"))[:300])
+    if go.get("outcome") != "resolved":
+        return "violation:expected", "by construction every reference designates a subschema, but the real package reports %s (%s)" % (
+            go.get("outcome"), str(go.get("detail"))[:200])
+    ev = ["valid" if e else "invalid" for e in me["expect"]]
+    if go.get("verdicts") != ev:
+        idx = [i for i, (a, b) in enumerate(zip(go.get("verdicts") or [], ev)) if a != b]
+        return "violation:expected", "verdicts: real package %r, designated targets (python oracle) %r (instance index %r)" % (go.get("verdicts"), ev, idx)
+    log = go.get("log") or []
+    if len(set(log)) != len(log):
+        return "violation", "the Loader was called twice with one URI: %r" % (log,)
+    missing = [u for u in me.get("needs", []) if u not in log]
+    if missing:
+        return "violation:expected", "designated documents never requested from the Loader: %r (requested: %r)" % (missing, log)
+    return "agree", ""
+
+
 def judge(o, go, m):
     if o["op"] == "uri":
         if go is None or m is None or "model" not in m:
@@ -57,8 +112,12 @@ def judge(o, go, m):
         if go != m["model"]:
             return "violation", "net/url: %r, model: %r" % (go, m["model"])
         return "agree", ""
-    st, d = vjudge.judge_validate(o, go, m)
     me = o.get("meta") or {}
+    if me.get("oracle"):
+        return judge_oracle(o, go)
+    st, d = vjudge.judge_validate(o, go, m)
+    if st == "agree" and me.get("expect_outcome") == "resolve-error" and go.get("outcome") != "resolve-error":
+        return "violation:expected", "a reference that designates nothing was accepted by both the real package and the model"
     if st == "violation:expected" and me.get("d9"):
         # real package = model here: both ask the Loader for the embedded resource's URI
         return "known:D9", d
